@@ -616,7 +616,22 @@ func hostileDocs(r *rand.Rand) []hostileInput {
 			add("extreme-length", bin([]byte{0xBE}, vu(20), []byte{t}, vu(n), bytes.Repeat([]byte{0x20}, 18)))
 			add("extreme-length", bin([]byte{0xD1}, vu(n), []byte{0x84, 0x20}))
 		}
-		add("extreme-sid", bin([]byte{0x78}, []byte{byte(n >> 56), byte(n >> 48), byte(n >> 40), byte(n >> 32), byte(n >> 24), byte(n >> 16), byte(n >> 8), byte(n)}))
+		// two cooperating lengths: a container that claims n bytes and, inside it, a scalar that claims
+		// almost as much (so it "fits"), followed by a few real bytes
+		if n > 64 && n < 1<<62 {
+			for _, ct := range [][]byte{{0xBE}, {0xCE}, {0xDE}} {
+				for _, st := range []byte{0x2E, 0x3E, 0x5E, 0x6E, 0x7E, 0x8E, 0x9E, 0xAE} {
+					fld := []byte{}
+					if ct[0] == 0xDE {
+						fld = []byte{0x84}
+					}
+					add("nested-extreme-length", bin(ct, vu(n), fld, []byte{st}, vu(n-16), []byte{0x01, 0x02, 0x03}))
+					add("nested-extreme-length", bin([]byte{0xEE}, vu(n), []byte{0x81, 0x84}, []byte{st}, vu(n-16), []byte{0x01, 0x02, 0x03}))
+					add("nested-extreme-length", bin(ct, vu(n), fld, []byte{0xBE}, vu(n-8), []byte{st}, vu(n-32), []byte{0x01}))
+				}
+			}
+		}
+		add("extreme-sid", bin([]byte{0x78},[]byte{byte(n >> 56), byte(n >> 48), byte(n >> 40), byte(n >> 32), byte(n >> 24), byte(n >> 16), byte(n >> 8), byte(n)}))
 		add("extreme-sid", bin([]byte{0xD9}, vu(n), []byte{0x20}))
 		add("extreme-sid", bin([]byte{0xEE}, vu(14), vu(10), vu(n), []byte{0x20, 0x20}))
 		add("extreme-sid", []byte(fmt.Sprintf("$%d a::$%d {$%d:1}", n, n, n)))
